@@ -232,6 +232,8 @@ def run(ctx) -> None:
             if t.kind == "test" and t.ast is not None and contains(lp.ast, t.ast) and isinstance(t.ast, ast.Compare) and isinstance(t.ast.ops[0], ast.Eq) and tv in src(t.ast):
                 val[src(t.ast)] = False
         ok = must_reach_in_iteration(cfg, lp, adds, val)
+    brk = [b for lp_ in tl for b in ast.walk(lp_.ast) if isinstance(b, ast.Break) and next((a for a in ancestors(b) if isinstance(a, (ast.For, ast.While))), None) is lp_.ast] if tl else []
+    rep.add("C03.R3", f"{grn.qname}:every-target-examined", bool(tl) and not brk, f"{grn.module.rel}:{(brk[0] if brk else grn.node).lineno}", "the loop over a ready gate's targets examines every target" if tl and not brk else "the loop over a ready gate's targets is left early (break): targets listed after that point — e.g. after END in route(targets=[END, 'work']) — are not held back and start in the gate's own step, before its decision exists")
     rep.add("C03.R3", f"{grn.qname}:all-targets-blocked", ok, grn.loc(), "every target of a ready gate (other than END and the gate itself) is blocked for this step" if ok else "a target of a ready gate can escape the block under an additional condition (e.g. because it is itself a ready gate): it runs in the deciding gate's own step, before the decision exists")
 
     # a runnable gate decides before its co-runnable targets even when the gate itself is postponed behind the producer of
